@@ -11,20 +11,27 @@ import (
 	"sort"
 	"strconv"
 	"strings"
+	"sync"
 	"testing"
 	"time"
 
 	"github.com/asynkron/protoactor-go/actor"
+	"github.com/asynkron/protoactor-go/remote"
 
 	"cell2verif/hx"
 
 	as "github.com/dfklegend/cell2/actorex/service"
+	messages "github.com/dfklegend/cell2/actorex/service/servicemsgs"
+	"github.com/dfklegend/cell2/node/app"
 	"github.com/dfklegend/cell2/node/builtin"
 	"github.com/dfklegend/cell2/node/builtin/channel"
 	"github.com/dfklegend/cell2/node/builtin/msgs"
 	"github.com/dfklegend/cell2/node/client/impls"
 	cs "github.com/dfklegend/cell2/node/client/session"
+	"github.com/dfklegend/cell2/node/cluster"
 	"github.com/dfklegend/cell2/node/service"
+	"github.com/dfklegend/cell2/utils/runservice"
+	"github.com/dfklegend/cell2/utils/timer"
 )
 
 // ---------------------------------------------------------------- fakes
@@ -38,7 +45,7 @@ type delivery struct {
 // fakeSession implements session.IClientSession and records every Push.
 type fakeSession struct {
 	id uint32
-	w  *world
+	fe *frontEnd
 }
 
 func (f *fakeSession) Reserve()        {}
@@ -52,7 +59,7 @@ func (f *fakeSession) Push(route string, v interface{}) error {
 	default:
 		data = []byte(fmt.Sprintf("?%T", v))
 	}
-	f.w.deliveries = append(f.w.deliveries, delivery{f.id, route, data})
+	f.fe.deliveries = append(f.fe.deliveries, delivery{f.id, route, data})
 	return nil
 }
 func (f *fakeSession) ResponseMID(mid uint, v interface{}, e error) error { return nil }
@@ -67,9 +74,10 @@ type pushTuple struct {
 }
 
 // recorder is the IPushMessager seen by the channel layer. It copies the id
-// slice at call time (the channel hands out its own backing array) and, for
-// the front-end that is the issuing service itself, passes the call on to the
-// real implementation (impls.PushMessageByIds -> pushLocal -> ClientSessions).
+// slice at call time (the channel hands out its own backing array) and passes
+// the call on to the real implementation (impls.PushMessageByIds -> pushLocal ->
+// ClientSessions for the issuing front-end itself, ns.RequestEx("sys.pushmsg")
+// towards other services).
 type recorder struct {
 	w    *world
 	real channel.IPushMessager
@@ -96,7 +104,9 @@ func (r *recorder) PushMessageByIds(ns *service.NodeService, serverId string, id
 	}
 	cp := append([]uint32(nil), ids...)
 	r.w.pushes = append(r.w.pushes, pushTuple{serverId, cp, route, fmt.Sprint(msg)})
-	if serverId == r.w.local && ns == r.w.ns {
+	if ns == r.w.ns {
+		// the real push layer: in place for the issuing front-end itself, one sys.pushmsg
+		// request towards any other service the directory knows (captured by sendCtx)
 		r.real.PushMessageByIds(ns, serverId, ids, route, msg)
 	}
 }
@@ -141,18 +151,18 @@ func (h *handler) OnSessionRemove(fs *cs.FrontSession) {
 // ---------------------------------------------------------------- world
 
 type world struct {
-	local      string
-	ns         *service.NodeService
-	sessions   *impls.ClientSessions
-	svc        *channel.Service
-	fakes      map[uint32]*fakeSession
-	deliveries []delivery
-	pushes     []pushTuple
-	uids       map[*channel.Channel]int
-	slots      map[string]string
-	race       *raceOp
-	onAdd      func(id uint32)
-	onRemove   func(id uint32)
+	local    string
+	ns       *service.NodeService // = a.ns
+	svc      *channel.Service
+	a, b     *frontEnd // the issuing front-end service and (optional) a second one in the same process
+	cur      *frontEnd // the one session operations address (b for `at=b`)
+	sent     []sentReq
+	pushes   []pushTuple
+	uids     map[*channel.Channel]int
+	slots    map[string]string
+	race     *raceOp
+	onAdd    func(id uint32)
+	onRemove func(id uint32)
 }
 
 var (
@@ -161,13 +171,89 @@ var (
 	realImpl channel.IPushMessager = &impls.ChannelPushMessageImpl{}
 )
 
-func newWorld(local string) *world {
-	nw := &world{local: local, fakes: map[uint32]*fakeSession{}, uids: map[*channel.Channel]int{}, slots: map[string]string{}}
-	nw.ns = service.NewService()
-	nw.ns.Name = local
-	nw.sessions = impls.NewClientSessions(local)
-	nw.sessions.SetHandler(&handler{w: nw})
-	nw.ns.AddComponent("sessions", impls.NewSessionsComponent(nw.sessions))
+// frontEnd is one front-end service: a NodeService that owns a sessions component.
+type frontEnd struct {
+	name       string
+	ns         *service.NodeService
+	sessions   *impls.ClientSessions
+	fakes      map[uint32]*fakeSession
+	deliveries []delivery
+	timers     *timer.Mgr
+}
+
+func newFrontEnd(nw *world, name string) *frontEnd {
+	fe := &frontEnd{name: name, fakes: map[uint32]*fakeSession{}, timers: timer.NewTimerMgr()}
+	fe.ns = service.NewService()
+	fe.ns.Name = name
+	// enough of a running service for ns.RequestEx: an actor context that captures Send,
+	// and a timer manager for the request-expiry timer (never run)
+	fe.ns.Context = &sendCtx{w: nw, self: actor.NewPID("h:1", name)}
+	fe.ns.SetRunService(&runservice.StandardRunService{TimerMgr: fe.timers})
+	fe.sessions = impls.NewClientSessions(name)
+	fe.ns.AddComponent("sessions", impls.NewSessionsComponent(fe.sessions))
+	return fe
+}
+
+type sentReq struct {
+	to    string
+	route string // route of the service request (sys.pushmsg)
+	msg   *msgs.PushMsg
+}
+
+// sendCtx stands in for the actor context of a started service: Send records the
+// request and plays the transport towards the second front-end of this process.
+type sendCtx struct {
+	actor.Context
+	w    *world
+	self *actor.PID
+}
+
+func (c *sendCtx) Self() *actor.PID { return c.self }
+func (c *sendCtx) Send(pid *actor.PID, message interface{}) {
+	req, ok := message.(*messages.ServiceRequest)
+	if !ok {
+		c.w.sent = append(c.w.sent, sentReq{to: pid.Id, route: fmt.Sprintf("?%T", message), msg: &msgs.PushMsg{}})
+		return
+	}
+	body, err := remote.Deserialize(req.Body, req.Type, as.DefaultSerializeId)
+	pm, _ := body.(*msgs.PushMsg)
+	if err != nil || pm == nil {
+		c.w.sent = append(c.w.sent, sentReq{to: pid.Id, route: "?body", msg: &msgs.PushMsg{}})
+		return
+	}
+	c.w.sent = append(c.w.sent, sentReq{to: pid.Id, route: req.Route, msg: pm})
+	if b := c.w.b; b != nil && pid.Id == b.name && req.Route == "sys.pushmsg" {
+		ctx := &as.RemoteContext{ActorContext: fakeCtx{a: &owner{ns: b.ns}}}
+		sysEntry.PushMsg(ctx, pm, func(error, interface{}) {})
+	}
+}
+
+var (
+	// the one `sys` entry object of the process: every service's sys.* requests go through it
+	sysEntry = &builtin.Entry{}
+	topoOnce sync.Once
+)
+
+func newWorld(local, second string) *world {
+	topoOnce.Do(func() {
+		app.Node.GetCluster().UpdateClusterTopology([]*cluster.Member{{Id: "c16@n1", Host: "h", Port: 1, State: 1,
+			Services: []string{"front.f1", "front.f2", "front.f3"}}})
+	})
+	if w != nil {
+		for _, fe := range []*frontEnd{w.a, w.b} {
+			if fe != nil {
+				fe.timers.Stop()
+			}
+		}
+	}
+	nw := &world{local: local, uids: map[*channel.Channel]int{}, slots: map[string]string{}}
+	nw.a = newFrontEnd(nw, local)
+	nw.cur = nw.a
+	if second != "" && second != local {
+		nw.b = newFrontEnd(nw, second)
+	}
+	nw.ns = nw.a.ns
+	nw.a.sessions.SetHandler(&handler{w: nw})
 	nw.svc = channel.NewChannelService(nw.ns)
 	channel.SetPushImpl(&recorder{w: nw, real: realImpl})
 	return nw
@@ -197,7 +283,7 @@ func (w *world) name(c string) string {
 
 func (w *world) live() string {
 	var ids []uint32
-	w.sessions.VisitSession(func(fs *cs.FrontSession) { ids = append(ids, fs.Session.GetId()) })
+	w.cur.sessions.VisitSession(func(fs *cs.FrontSession) { ids = append(ids, fs.Session.GetId()) })
 	sort.Slice(ids, func(i, j int) bool { return ids[i] < ids[j] })
 	return "live=" + showIds(ids)
 }
@@ -210,12 +296,14 @@ func showIds(ids []uint32) string {
 	return strings.Join(ss, ",")
 }
 
-func (w *world) showDl() string {
-	ss := make([]string, len(w.deliveries))
-	for i, d := range w.deliveries {
+func (w *world) showDl() string { return "dl=" + renderDl(w.cur.deliveries) }
+
+func renderDl(ds []delivery) string {
+	ss := make([]string, len(ds))
+	for i, d := range ds {
 		ss[i] = fmt.Sprintf("%d:%s:%s", d.id, d.route, hx.Hex(d.data))
 	}
-	return "dl=" + strings.Join(ss, ",")
+	return strings.Join(ss, ",")
 }
 
 // bcast broadcasts on ch (nil = no such channel) and renders what the push layer was handed.
@@ -243,7 +331,25 @@ func (w *world) bcast(ch *channel.Channel, route, msg string) string {
 			stat("bcast.empty-tuple")
 		}
 	}
-	return fmt.Sprintf("n=%d%s | once=%d %s", n, sb.String(), once, w.showDl())
+	// what was sent onward (non-empty id lists, sorted by target) and what the second front-end's connections got
+	sent := w.sent
+	sort.SliceStable(sent, func(i, j int) bool { return sent[i].to < sent[j].to })
+	var ss []string
+	for _, q := range sent {
+		if len(q.msg.Ids) == 0 {
+			continue
+		}
+		to := q.to
+		if q.route != "sys.pushmsg" {
+			to += "?" + q.route
+		}
+		ss = append(ss, fmt.Sprintf("%s/%s/%s/%s", to, showIds(q.msg.Ids), q.msg.Route, hx.Hex(q.msg.Data)))
+	}
+	dlb := ""
+	if w.b != nil {
+		dlb = renderDl(w.b.deliveries)
+	}
+	return fmt.Sprintf("n=%d%s | once=%d dl=%s sent=%s dlb=%s", n, sb.String(), once, renderDl(w.a.deliveries), strings.Join(ss, ";"), dlb)
 }
 
 // ---------------------------------------------------------------- op interpreter
@@ -312,21 +418,49 @@ func exec(op string) string {
 	obs := guarded(ws)
 	if obs == "panic" {
 		// the code under test may have died holding a group lock: continue on a fresh world
-		w = newWorld(w.local)
+		second := ""
+		if w.b != nil {
+			second = w.b.name
+		}
+		w = newWorld(w.local, second)
 	}
 	return obs
 }
 
 func guarded(ws []string) string {
 	return hx.Guard(func() string {
-		w.deliveries, w.pushes = nil, nil
+		w.pushes, w.sent, w.cur = nil, nil, w.a
+		w.a.deliveries = nil
+		if w.b != nil {
+			w.b.deliveries = nil
+		}
+		// `at=b` on a session operation addresses the second front-end service
+		if ws[0] == "sadd" || ws[0] == "sdel" || ws[0] == "spush" || ws[0] == "syspush" {
+			if at, has := hx.KV(ws, "at"); has {
+				switch {
+				case at == "a":
+				case at == "b" && w.b != nil:
+					w.cur = w.b
+					var rest []string
+					for _, x := range ws {
+						if x != "at=b" {
+							rest = append(rest, x)
+						}
+					}
+					ws = rest
+				default:
+					return "bad-op"
+				}
+			}
+		}
 		switch ws[0] {
 		case "reset":
 			lf, ok := hx.KV(ws, "local")
 			if !ok {
 				return "bad-op"
 			}
-			w = newWorld(lf)
+			second, _ := hx.KV(ws, "second")
+			w = newWorld(lf, second)
 			return "ok"
 		case "addch":
 			c, ok := hx.KV(ws, "ch")
@@ -469,12 +603,12 @@ func guarded(ws []string) string {
 						ids[i] = uint32(t)
 					}
 				}
-				w.sessions.PushMsg(&msgs.PushMsg{Ids: ids, Route: route, Data: data})
+				w.cur.sessions.PushMsg(&msgs.PushMsg{Ids: ids, Route: route, Data: data})
 			}
-			fs := &fakeSession{w: w}
-			w.sessions.AddSession(fs)
+			fs := &fakeSession{fe: w.cur}
+			w.cur.sessions.AddSession(fs)
 			w.onAdd = nil
-			w.fakes[fs.id] = fs
+			w.cur.fakes[fs.id] = fs
 			return fmt.Sprintf("id=%d %s %s", fs.id, w.live(), w.showDl())
 		case "saddbcast":
 			c, ok1 := hx.KV(ws, "ch")
@@ -488,10 +622,10 @@ func guarded(ws []string) string {
 				ch := w.svc.AddToChannel(w.name(c), w.local, id)
 				inner = w.uid(ch) + " bcast: " + w.bcast(ch, route, msg)
 			}
-			fs := &fakeSession{w: w}
-			w.sessions.AddSession(fs)
+			fs := &fakeSession{fe: w.cur}
+			w.cur.sessions.AddSession(fs)
 			w.onAdd = nil
-			w.fakes[fs.id] = fs
+			w.cur.fakes[fs.id] = fs
 			return fmt.Sprintf("id=%d %s %s", fs.id, w.live(), inner)
 		case "sdelpush":
 			id, ok0 := u32(ws, "id")
@@ -502,16 +636,16 @@ func guarded(ws []string) string {
 				return "bad-op"
 			}
 			w.onRemove = func(uint32) {
-				w.sessions.PushMsg(&msgs.PushMsg{Ids: ids, Route: route, Data: data})
+				w.cur.sessions.PushMsg(&msgs.PushMsg{Ids: ids, Route: route, Data: data})
 			}
-			fs := w.fakes[id]
+			fs := w.cur.fakes[id]
 			before := w.live()
 			if fs == nil {
-				fs = &fakeSession{id: id, w: w}
+				fs = &fakeSession{id: id, fe: w.cur}
 			}
-			w.sessions.RemoveSession(fs)
+			w.cur.sessions.RemoveSession(fs)
 			w.onRemove = nil
-			delete(w.fakes, id)
+			delete(w.cur.fakes, id)
 			after := w.live()
 			if before == after {
 				return "missing " + after + " " + w.showDl()
@@ -546,22 +680,22 @@ func guarded(ws []string) string {
 			}
 			return "ok"
 		case "sadd":
-			fs := &fakeSession{w: w}
-			w.sessions.AddSession(fs)
-			w.fakes[fs.id] = fs
+			fs := &fakeSession{fe: w.cur}
+			w.cur.sessions.AddSession(fs)
+			w.cur.fakes[fs.id] = fs
 			return fmt.Sprintf("id=%d %s", fs.id, w.live())
 		case "sdel":
 			id, ok := u32(ws, "id")
 			if !ok {
 				return "bad-op"
 			}
-			fs := w.fakes[id]
+			fs := w.cur.fakes[id]
 			before := w.live()
 			if fs == nil {
-				fs = &fakeSession{id: id, w: w}
+				fs = &fakeSession{id: id, fe: w.cur}
 			}
-			w.sessions.RemoveSession(fs)
-			delete(w.fakes, id)
+			w.cur.sessions.RemoveSession(fs)
+			delete(w.cur.fakes, id)
 			after := w.live()
 			if before == after {
 				return "missing " + after
@@ -576,12 +710,12 @@ func guarded(ws []string) string {
 			}
 			m := &msgs.PushMsg{Ids: ids, Route: route, Data: data}
 			if ws[0] == "spush" {
-				w.sessions.PushMsg(m)
+				w.cur.sessions.PushMsg(m)
 				return w.showDl()
 			}
 			cb := 0
-			ctx := &as.RemoteContext{ActorContext: fakeCtx{a: &owner{ns: w.ns}}}
-			(&builtin.Entry{}).PushMsg(ctx, m, func(e error, r interface{}) {
+			ctx := &as.RemoteContext{ActorContext: fakeCtx{a: &owner{ns: w.cur.ns}}}
+			sysEntry.PushMsg(ctx, m, func(e error, r interface{}) {
 				if e == nil && r == nil {
 					cb++
 				} else {
@@ -726,7 +860,7 @@ func (g *gen) malformed() string {
 		return "spush ids=1 route=r data=0"
 	case 8:
 		return []string{"sdel id=-1", "joinrange ch=a front=f1 lo=1 hi=99999", "leaverange ch=a front=f1 lo=1 hi=3 dir=sideways",
-			"saddpush ids=self,me route=r data=", "bcastrace ch=a route=r msg=m front=f1 act=swap id=1", "sdelpush id=2 ids=1 route=r", "leaverange ch=a front=f1 lo=5 hi=2 dir=up"}[r.Intn(7)]
+			"saddpush ids=self,me route=r data=", "sadd at=c", "spush ids=2 route=r data= at=b", "bcastrace ch=a route=r msg=m front=f1 act=swap id=1", "sdelpush id=2 ids=1 route=r", "leaverange ch=a front=f1 lo=5 hi=2 dir=up"}[r.Intn(9)]
 	}
 	return "freetemp slot=nope"
 }
@@ -854,7 +988,7 @@ func (g *gen) sdelPush() string {
 	r := g.h.R
 	id := uint32(1 + r.Intn(8))
 	var live []uint32
-	for k := range w.fakes {
+	for k := range w.cur.fakes {
 		live = append(live, k)
 	}
 	sort.Slice(live, func(i, j int) bool { return live[i] < live[j] })
@@ -907,6 +1041,71 @@ func sessCase(h *hx.T, g *gen, run func(string)) {
 		}
 	}
 	h.Count("case.session-callbacks")
+}
+
+// twoFrontCase: two front-end services in one process, both numbering their connections from 2,
+// with different live sets; pushes (direct and through the shared sys entry) addressed to each in
+// turn, and broadcasts of a channel that spans both (and a third, remote-only one).
+func twoFrontCase(h *hx.T, g *gen, run func(string), idx int) {
+	r := h.R
+	g.slots, g.slotN = nil, 0
+	local, second := "f1", "f2"
+	if idx%3 == 1 {
+		local, second = "f2", "f1"
+	}
+	if idx%7 == 6 {
+		second = "f3"
+	}
+	run(fmt.Sprintf("reset local=%s second=%s", local, second))
+	na, nb := 1+r.Intn(4), 1+r.Intn(4)
+	for i := 0; i < na; i++ {
+		run("sadd")
+	}
+	for i := 0; i < nb; i++ {
+		run("sadd at=b")
+	}
+	// make the two connection tables differ
+	if r.Intn(2) == 0 {
+		run(fmt.Sprintf("sdel id=%d", 2+r.Intn(na)))
+	} else {
+		run(fmt.Sprintf("sdel id=%d at=b", 2+r.Intn(nb)))
+	}
+	first := []string{"", " at=b"}
+	if idx%2 == 1 {
+		first = []string{" at=b", ""}
+	}
+	for _, at := range first {
+		run(g.pushOp("syspush") + at)
+	}
+	for i, k := 0, 6+r.Intn(14); i < k; i++ {
+		at := ""
+		if r.Intn(2) == 0 {
+			at = " at=b"
+		}
+		switch x := r.Intn(12); {
+		case x < 4:
+			h.Count("two.syspush" + strings.TrimSpace(at))
+			run(g.pushOp("syspush") + at)
+		case x < 5:
+			run(g.pushOp("spush") + at)
+		case x < 8:
+			run(fmt.Sprintf("join ch=%s front=%s id=%d", chanNames[r.Intn(2)], frontNames[r.Intn(3)], 2+r.Intn(5)))
+		case x < 9:
+			run(fmt.Sprintf("leave ch=%s front=%s id=%d", chanNames[r.Intn(2)], frontNames[r.Intn(3)], 2+r.Intn(5)))
+		case x < 11:
+			h.Count("two.bcast")
+			run(fmt.Sprintf("bcast ch=%s route=x%d msg=m%d", chanNames[r.Intn(2)], r.Intn(3), r.Intn(1000)))
+		default:
+			if r.Intn(2) == 0 {
+				run("sadd" + at)
+			} else {
+				run(fmt.Sprintf("sdel id=%d%s", 2+r.Intn(5), at))
+			}
+		}
+	}
+	run("bcast ch=a route=end msg=fin")
+	run("bcast ch=b route=end msg=fin")
+	h.Count("case.two-front-ends")
 }
 
 // raceCase: membership operations of another goroutine landing while a broadcast is in flight
@@ -1075,8 +1274,14 @@ func countObs(h *hx.T, op, obs string) {
 			return
 		}
 		h.Count("bcast.tuples=" + strings.SplitN(strings.TrimPrefix(obs, "n="), " ", 2)[0])
-		if !strings.HasSuffix(obs, "dl=") {
+		if !strings.Contains(obs, " dl= ") {
 			h.Count("bcast.local-delivery")
+		}
+		if !strings.Contains(obs, " sent= ") {
+			h.Count("bcast.sent-onward")
+		}
+		if !strings.HasSuffix(obs, "dlb=") {
+			h.Count("bcast.second-front-delivery")
 		}
 	case strings.HasPrefix(op, "spush"), strings.HasPrefix(op, "syspush"):
 		if strings.HasPrefix(obs, "dl=") && !strings.HasPrefix(obs, "dl= ") && obs != "dl=" {
@@ -1097,10 +1302,27 @@ func runCase(h *hx.T, g *gen, run func(string)) {
 	case 1:
 		local = "gate-9" // a front that never gets members: nothing is delivered in place
 	}
-	run("reset local=" + local)
+	reset := "reset local=" + local
+	second := ""
+	if r.Intn(4) != 0 {
+		second = frontNames[r.Intn(len(frontNames))]
+		reset += " second=" + second
+		if second == local {
+			second = ""
+		}
+	}
+	run(reset)
 	nsess := r.Intn(5)
 	for i := 0; i < nsess; i++ {
 		run("sadd")
+	}
+	if second != "" {
+		for i, k := 0, r.Intn(5); i < k; i++ {
+			run("sadd at=b")
+		}
+		if r.Intn(2) == 0 {
+			run(fmt.Sprintf("sdel id=%d at=b", 2+r.Intn(3)))
+		}
 	}
 	if r.Intn(3) == 0 { // warm-up: one long group, so that first/middle/last removals hit real positions
 		c, f := g.ch(), g.front()
@@ -1123,7 +1345,7 @@ func TestRun(t *testing.T) {
 	defer channel.SetPushImpl(prev)
 	h := hx.Open()
 	defer h.Close()
-	w = newWorld("")
+	w = newWorld("", "")
 	stat = h.Count
 	run := func(op string) {
 		obs := exec(op)
@@ -1149,6 +1371,9 @@ func TestRun(t *testing.T) {
 	for i := 0; i < nsess; i++ {
 		sessCase(h, g, run)
 	}
+	for i, k := 0, hx.EnvInt("VERIF_TWO", 60); i < k; i++ {
+		twoFrontCase(h, g, run, i)
+	}
 	for i, k := 0, hx.EnvInt("VERIF_RACE", 40); i < k; i++ {
 		raceCase(h, g, run)
 	}
@@ -1164,7 +1389,7 @@ func TestExhaustive(t *testing.T) {
 	defer channel.SetPushImpl(prev)
 	h := hx.Open()
 	defer h.Close()
-	w = newWorld("")
+	w = newWorld("", "")
 	alpha := []string{
 		"join ch=a front=f1 id=2", "join ch=a front=f1 id=3", "leave ch=a front=f1 id=2", "leave ch=a front=f1 id=3",
 		"join ch=a front=f2 id=2", "leave ch=a front=f2 id=2", "delch ch=a",
